@@ -88,6 +88,8 @@ pub struct Reader {
     pub tables: Vec<(String, RHandle)>,
     pub iters: Vec<HeldIter>,
     pub guards: Vec<HeldGuard>,
+    /// pages reachable from this reader's root at begin_read(), with their byte hashes
+    pub pins: Option<crate::deep::Pins>,
 }
 
 impl Reader {
@@ -102,6 +104,7 @@ pub struct Eph {
     pub seq: u64,
     pub snap: Arc<Tables>,
     pub valid: bool,
+    pub pins: Option<crate::deep::Pins>,
 }
 
 pub struct Exec {
@@ -133,6 +136,12 @@ pub struct Exec {
     pub fault_plan: Option<Vec<crate::disk::Fault>>,
     pub calls_counted: u64,
     pub hook: Option<Arc<std::sync::Mutex<crate::deep::HookShared>>>,
+    pub prop_under_check: String,
+}
+
+thread_local! {
+    /// the property whose check is running (set by the runner per worker thread)
+    pub static PROP_UNDER_CHECK: std::cell::RefCell<String> = std::cell::RefCell::new("C08".to_string());
 }
 
 pub fn is_io_error_str(s: &str) -> bool {
@@ -178,6 +187,7 @@ impl Exec {
             fault_plan: None,
             calls_counted: 0,
             hook: None,
+            prop_under_check: PROP_UNDER_CHECK.with(|p| p.borrow().clone()),
         }
     }
 
@@ -194,6 +204,15 @@ impl Exec {
         if self.viols.len() < 20 {
             self.viols.push(v);
         }
+    }
+
+    /// A panic that escaped a redb API call. With faults armed that is C08's "neither panics";
+    /// on a fault-free run it is charged to the property under check (a broken invariant tripping
+    /// one of redb's own assertions), with the panic message.
+    pub fn panic_viol(&mut self, what: &str) {
+        let prop = if self.mode == Mode::Faulty { "C08".to_string() } else { self.prop_under_check.clone() };
+        let msg = crate::runner::last_panic();
+        self.viol(&prop, "panic", format!("{what}: {msg}"));
     }
 
     pub fn state(&self) -> &Arc<DbState> {
@@ -346,7 +365,7 @@ impl Exec {
             self.disk.marker(Marker::CloseBegin);
             let r = catch_unwind(AssertUnwindSafe(|| drop(db)));
             if r.is_err() {
-                self.viol("C08", "panic", "panic while dropping the Database".into());
+                self.panic_viol("panic while dropping the Database");
             }
             if !self.io_error_seen && self.mode == Mode::Strict {
                 self.disk.marker(Marker::CloseEnd);
@@ -468,7 +487,8 @@ impl Exec {
                 match db.begin_read() {
                     Ok(txn) => {
                         let v = self.cur;
-                        self.readers.push(Reader { txn: Some(txn), v, tables: vec![], iters: vec![], guards: vec![] });
+                        let pins = if self.cfg.deep_oracles && self.mode == Mode::Strict { crate::deep::take_pins(db) } else { None };
+                        self.readers.push(Reader { txn: Some(txn), v, tables: vec![], iters: vec![], guards: vec![], pins });
                     }
                     Err(e) => self.api_err("C02", "begin_read", &e.to_string()),
                 }
@@ -1008,13 +1028,43 @@ impl Exec {
         if !self.cfg.deep_oracles || self.mode != Mode::Strict || !self.viols.is_empty() {
             return;
         }
-        let Some(db) = self.db.as_ref() else { return };
-        let o = crate::deep::ownership_audit(db);
-        if o.skipped {
-            return;
+        let mut problems: Vec<(String, String)> = vec![];
+        let mut audited = false;
+        let mut pinned = false;
+        if let Some(db) = self.db.as_ref() {
+            let o = crate::deep::ownership_audit(db);
+            if o.skipped {
+                return;
+            }
+            audited = true;
+            problems.extend(o.problems);
+            // pages of live readers and savepoints are never freed or rewritten
+            let (mem, _) = db.verif_snapshot();
+            if let Some(alloc) = mem.allocated.as_ref() {
+                pinned = true;
+                for r in self.readers.iter().filter(|r| r.alive()) {
+                    if let Some(p) = &r.pins
+                        && let Some(e) = crate::deep::check_pins(db, p, alloc)
+                    {
+                        problems.push(("pin".into(), format!("reader begun at version {}: {e}", r.v)));
+                    }
+                }
+                for e in self.eph.iter() {
+                    if let Some(p) = &e.pins
+                        && let Some(m) = crate::deep::check_pins(db, p, alloc)
+                    {
+                        problems.push(("pin".into(), format!("ephemeral savepoint #{}: {m}", e.seq)));
+                    }
+                }
+            }
         }
-        self.stats.ownership_audits += 1;
-        for (tag, d) in o.problems {
+        if audited {
+            self.stats.ownership_audits += 1;
+        }
+        if pinned {
+            self.stats.deep_checks += 1;
+        }
+        for (tag, d) in problems {
             self.viol("C06", &tag, d);
         }
     }
